@@ -21,6 +21,8 @@ LEVEL_TEXT = {
     "C14": ("model_checking", "Annotation binding vs. Annot.tla: TLC enumerates every bounded entry sequence, model-checks positional=keyword, keyword-order irrelevance, defaults, numeric canonicity and verbatim free keys, and validates the attributes that arrive in the returned graphs at three sites (base node, coarse-fragment node, atom; reuse 1-3) against Annot!Bind.", "4.3, 5 C14"),
     "C16": ("model_checking", "Sampler vs. Sampler.tla: SamplerMC explores every growth trajectory of the small configurations (tree, complementary, once, never-zero, terminal invariants) and every finished trajectory is forced through the real sampler with a scripted RNG; every sampled molecule is decomposed into growth events and replayed through the spec's Grow action (one TLC state per event, each must be enabled), and validated as a resolved molecule (copy fidelity, numbering, valence).", "4.6, 5 C16"),
     "C17": ("model_checking", "Sampler vs. Sampler.tla with the RNG interposed in the harness process: at every draw the offered population and the positivity of its weights must equal the specification's enabled set (never-zero site/partner), leftover descriptors must equal the spec's open descriptors (terminal closes atom / terminals withdrawn), stop rule, element-derived masses vs. Chem.tla; seed histories in fresh processes under several PYTHONHASHSEEDs.", "4.6, 5 C17"),
+    "C18": ("other", "RDKit bridge and forward mapping: the harness measures (chemistry before/after the round trip, which conformer atom's coordinates every node received, bead coefficient vectors obtained exactly by probing the linear map with unit positions), TLC evaluates the predicates of GeomTrace.tla (index model: node at iteration position p becomes RDKit atom p-1; coefficient = w/sum(w) over integers). Not model checking of geometry - stated in DESIGN.md.", "5 C18"),
+    "C19": ("other", "2D layout: connected atlas graphs <= 6 nodes, paths/stars/rings/ladders, resolved molecules with hydrogens and E/Z marks x bond lengths x relabelings x NumPy seeds; the harness measures, TLC evaluates all-nodes / finite / no coincident bonded pair / mean bond length = requested (1e-6) on integer-scaled values. Thin by design: TLA+ cannot decide floating-point geometry.", "5 C19"),
     "C20": ("model_checking", "Fault mode of CGGraphMC / ResolveMC: every bounded string ending in one of the listed faults and single-fault injections into long simulated strings; the expected error is computed by the specification (CGGraph!Fault, Annot!BindError, Resolve!MissingFragment) and compared by TLC with the observed outcome.", "5 C20"),
 }
 
